@@ -138,6 +138,11 @@ def run_case(case, ctx):
                     for n in range(0, w + 4):
                         _try(lambda: x << n)
                         _try(lambda: x >> n)
+                for rr in ('around', 'ceil', 'fix', 'floor'):
+                    xr = Fxp(np.arange(lo, hi + 1), s, w, nf, raw=True, shifting=mode, overflow=ov, rounding=rr)
+                    for n in (1, 2, w):
+                        _try(lambda: xr >> n)
+                        _try(lambda: xr << n)
                 xa = Fxp(np.arange(lo, hi + 1), s, w, nf, raw=True, shifting=mode, overflow=ov)
                 for n in range(0, w + 4):
                     _try(lambda: xa << n)
@@ -168,7 +173,7 @@ def run_case(case, ctx):
     if rank and rng.random() < 0.3:
         v = np.array(v)
         v.flat[0] = 0
-    x = Fxp(v, s, w, nf, raw=True, shifting=mode, overflow=ov)
+    x = Fxp(v, s, w, nf, raw=True, shifting=mode, overflow=ov, rounding=G.ROUNDINGS[(i // 6) % 5])
     for n in sorted(set([0, 1, rng.randint(0, w + 3), rng.randint(0, w + 3), w - 1, w, min(w + 3, 62 - w)])):
         if 0 <= n and w + n <= 62:
             _try(lambda: x << n)
